@@ -17,7 +17,7 @@ RULE = ("every connected labelled multigraph topology of the listed levels x kin
         "with 1..3 reactive elements and 1..2 sources (plus, at the 5-branch levels, the family with exactly one source and two reactive elements of the same kind) x orientation x id scheme (ascending, descending and interleaved names, "
         "so that listing order and alphabetical order of sources, inductors and capacitors disagree in every way; all id "
         "permutations at the small levels) with the ground rotating over the nodes; judged when the characteristic polynomial "
-        "(exact, per class) has full degree and no root at 0; for each circuit every source column and every output "
+        "(exact, per class; ladders of 1..3 (thorough 4) sections over six source/series/shunt patterns with up to 6 (8) states are added and identified at 16 frequencies) has full degree and no root at 0; for each circuit every source column and every output "
         "(all node potentials, all element voltages, all element currents, all states) is compared at 10 frequencies with the "
         "phasor response to that source alone; states = distinct circuits judged, transitions = (circuit, frequency, source) "
         "transfer-function evaluations; non-trivial = circuit whose transfer function is not identically zero")
@@ -55,12 +55,28 @@ def shards(tier):
         for ti in range(len(topos)):
             for ch in sp.chunks(range(len(allk)), per):
                 out.append(("RLC(%d,%d)|ids:%s|kinds:%s|orient:%s" % (n, b, mode, filt, om), (n, b, ti, ch[0], ch[-1] + 1, mode, filt, om)))
+    for li in range(len(dyn.LADDERS)):
+        for nsec in range(1, (4 if tier == "thorough" else 3) + 1):
+            out.append(("ladders (up to %d sections, %d states)" % ((4, 8) if tier == "thorough" else (3, 6)), ("lad", li, nsec)))
     return out
 
 
 def run_shard(desc):
-    n, b, ti, k0, k1, mode, filt, om = desc
     res = new_result()
+    if desc[0] == "lad":
+        src, ser, shu = dyn.LADDERS[desc[1]]
+        for scheme in ("asc", "desc", "mix"):
+            for flip in (False, True):
+                for g in range(desc[2] + 2):
+                    d = dyn.ladder(src, ser, shu, desc[2], scheme, flip, g)
+                    res["evals"] += 1
+                    ok, why = rd.non_degenerate(d)
+                    if not ok:
+                        bump(res["skipped"], why)
+                        continue
+                    judge(d, res, wpal=dyn.W_PALETTE_LONG)
+        return res
+    n, b, ti, k0, k1, mode, filt, om = desc
     topo = sp.topologies(n, b)[ti]
     allk = dyn.kind_tuples(b, filt)
     idl = id_lists(b, mode)
@@ -91,7 +107,7 @@ def tf(A, B, C, D, w):
     return C @ X + D, X
 
 
-def judge(d, res):
+def judge(d, res, wpal=None):
     from CircuitCalculator.Circuit.state_space_model import state_space_model
     from CircuitCalculator.Circuit.solution import DCSolution
     case = {"circuit": d}
@@ -123,7 +139,7 @@ def judge(d, res):
         return
     state_ids = [c[1] for c in caps] + [c[1] for c in inds]
     nontrivial = False
-    for w in dyn.W_PALETTE:
+    for w in (wpal or dyn.W_PALETTE):
         try:
             H, X = tf(A, B, C, D, float(w))
         except np.linalg.LinAlgError:
